@@ -74,12 +74,22 @@ fn expected_incident(a: &AGraph, l: usize, out: bool) -> Vec<(usize, usize, i32)
     v
 }
 
+/// iterator-protocol laws (util::iter_laws_by) for one of the trait iterators of a view
+macro_rules! laws {
+    ($w:expr, $what:expr, $mk:expr, $cap:expr, $key:expr) => {
+        if let Err(e) = crate::util::iter_laws_by($mk, $cap, $key) {
+            return Err(Failure { sig: format!("C06/iterator-protocol/{}", $what), msg: format!("{}: {}: {e}", $w, $what) });
+        }
+    };
+}
+
 fn c_nodes<G>(g: G, v: &View<G::NodeId>, w: &str) -> R
 where
     G: IntoNodeIdentifiers + NodeIndexable + Copy,
     G::NodeId: Nid,
 {
     let ids: Vec<G::NodeId> = g.node_identifiers().take(v.a.n + 3).collect();
+    laws!(w, "node_identifiers", || g.node_identifiers(), v.a.n + 3, |x: &G::NodeId| *x);
     let mut labels: Vec<usize> = Vec::new();
     for &id in &ids {
         labels.push(v.label(id, w).map_err(|f| Failure { sig: "C06/node_identifiers-unknown".into(), msg: format!("{w}: {}", f.msg) })?);
@@ -123,6 +133,7 @@ where
     G: IntoNodeReferences + Copy,
     G::NodeId: Nid,
 {
+    laws!(w, "node_references", || g.node_references(), v.a.n + 3, |r: &G::NodeRef| r.id());
     let mut labels = Vec::new();
     for r in g.node_references().take(v.a.n + 3) {
         labels.push(v.label(r.id(), w)?);
@@ -138,6 +149,7 @@ where
     G::EdgeRef: EdgeRef<Weight = i32>,
 {
     let a = v.a;
+    laws!(w, "edge_references", || g.edge_references(), 2 * a.m() + 4, |e: &G::EdgeRef| (e.source(), e.target(), *e.weight()));
     let mut got: Vec<(usize, usize, i32)> = Vec::new();
     for e in g.edge_references().take(2 * a.m() + 4) {
         let (s, t) = (v.label(e.source(), w)?, v.label(e.target(), w)?);
@@ -180,6 +192,7 @@ where
     G::NodeId: Nid,
 {
     for &l in &v.live {
+        laws!(w, "neighbors", || g.neighbors(v.id(l)), 2 * v.a.m() + 4, |x: &G::NodeId| *x);
         let mut got = Vec::new();
         for x in g.neighbors(v.id(l)).take(2 * v.a.m() + 4) {
             got.push(v.label(x, w)?);
@@ -197,6 +210,7 @@ where
 {
     for &l in &v.live {
         for (d, out) in [(Outgoing, true), (Incoming, false)] {
+            laws!(w, "neighbors_directed", || g.neighbors_directed(v.id(l), d), 2 * v.a.m() + 4, |x: &G::NodeId| *x);
             let mut got = Vec::new();
             for x in g.neighbors_directed(v.id(l), d).take(2 * v.a.m() + 4) {
                 got.push(v.label(x, w)?);
@@ -215,6 +229,7 @@ where
     G::EdgeRef: EdgeRef<Weight = i32>,
 {
     for &l in &v.live {
+        laws!(w, "edges", || g.edges(v.id(l)), 2 * v.a.m() + 4, |e: &G::EdgeRef| (e.source(), e.target(), *e.weight()));
         let mut got = Vec::new();
         for e in g.edges(v.id(l)).take(2 * v.a.m() + 4) {
             got.push((v.label(e.source(), w)?, v.label(e.target(), w)?, *e.weight()));
@@ -233,6 +248,7 @@ where
 {
     for &l in &v.live {
         for (d, out) in [(Outgoing, true), (Incoming, false)] {
+            laws!(w, "edges_directed", || g.edges_directed(v.id(l), d), 2 * v.a.m() + 4, |e: &G::EdgeRef| (e.source(), e.target(), *e.weight()));
             let mut got = Vec::new();
             for e in g.edges_directed(v.id(l), d).take(2 * v.a.m() + 4) {
                 got.push((v.label(e.source(), w)?, v.label(e.target(), w)?, *e.weight()));
